@@ -293,7 +293,26 @@ func genRoutes(repo, out string) {
 		}
 		sb.WriteString("\n")
 	}
-	sb.WriteString("]\n\nend Shovel.Gen.Routes\n")
+	// is the dashboard served only after the manager's first Run reported (position of the calls in main)
+	var servePos, firstRunPos token.Pos
+	ast.Inspect(f, func(n ast.Node) bool {
+		switch x := n.(type) {
+		case *ast.CallExpr:
+			if src(x.Fun) == "http.ListenAndServe" && servePos == 0 {
+				servePos = x.Pos()
+			}
+		case *ast.UnaryExpr:
+			if x.Op == token.ARROW && src(x.X) == "ec" && firstRunPos == 0 {
+				firstRunPos = x.Pos()
+			}
+		}
+		return true
+	})
+	if servePos == 0 || firstRunPos == 0 {
+		fail("main: http.ListenAndServe / <-ec not recognised")
+	}
+	fmt.Fprintf(&sb, "]\n\n/-- `http.ListenAndServe` is started after `<-ec` (the first Run has loaded and installed its generation) -/\ndef serveAfterFirstRun : Bool := %v\n", servePos > firstRunPos)
+	sb.WriteString("\nend Shovel.Gen.Routes\n")
 	writeIfChanged(filepath.Join(out, "Routes.lean"), sb.String())
 }
 
